@@ -148,8 +148,13 @@ __CPROVER_requires(__CPROVER_r_ok(block, VF_GOST_B))
 __CPROVER_requires(vf_g0_n < 4)
 __CPROVER_assigns(__CPROVER_object_upto(ctx->hash, sizeof(ctx->hash)))
 VF_GOST_SCRATCH_ASSIGNS(ctx)
-__CPROVER_assigns(vf_g0_n, vf_g0_ptr[vf_g0_n], __CPROVER_object_whole(vf_blk_h))
+__CPROVER_assigns(vf_g0_n, __CPROVER_object_whole(vf_g0_ptr), __CPROVER_object_whole(vf_blk_h))
 __CPROVER_ensures(vf_g0_n == __CPROVER_old(vf_g0_n) + 1 && vf_g0_ptr[__CPROVER_old(vf_g0_n)] == block)
+/* the other recorded operands are kept */
+__CPROVER_ensures((__CPROVER_old(vf_g0_n) == 0 || vf_g0_ptr[0] == __CPROVER_old(vf_g0_ptr[0])) &&
+    (__CPROVER_old(vf_g0_n) == 1 || vf_g0_ptr[1] == __CPROVER_old(vf_g0_ptr[1])) &&
+    (__CPROVER_old(vf_g0_n) == 2 || vf_g0_ptr[2] == __CPROVER_old(vf_g0_ptr[2])) &&
+    (__CPROVER_old(vf_g0_n) == 3 || vf_g0_ptr[3] == __CPROVER_old(vf_g0_ptr[3])))
 __CPROVER_ensures(VF_GOST_EQ8(ctx->hash, vf_blk_h))
 ;
 #endif
